@@ -239,7 +239,10 @@ def dedup : List Text → List Text
 /-- `_make_node` ext.py:515-575 -/
 def makeNode (newstyle : Bool) (singular : Text) (plural : Option Text) (ctx : Option Text) (keys : List Text)
     (pluralExpr : Option Text) (varsReferenced numCalledNum : Bool) : Node :=
-  let un := !varsReferenced && !newstyle
+  -- ext.py: `if not variables and not newstyle:` (since a1dc827; before, `not vars_referenced`) — un-double exactly
+  -- when no `% dict` will be applied below; `vars_referenced` is still passed but no longer read
+  let _ := varsReferenced
+  let un := keys.isEmpty && !newstyle
   let singular := if un then undouble singular else singular
   let plural := if un then plural.map undouble else plural
   { func := match ctx, pluralExpr with
